@@ -1,3 +1,249 @@
-(* C01 — placeholder until the theorems are proved: see below. *)
-From Coq Require Import List ZArith NArith Bool Arith.
-From PK Require Import PyList Episodes Stage.
+(* C01 — round trip.  Only statements, closed by [exact]/[apply]; the proofs live in
+   RoundtripList.v / RoundtripDelay.v / RoundtripLeaf.v / Roundtrip.v / RoundtripModel.v,
+   the specification (itf_ep, lag, no_unwrap, no_preproc, balanced, angles_ok) in
+   RoundtripSpec.v.
+
+   Hypotheses on the abstract cell operations, explicit premises of every theorem:
+     H_atan  : atan2 (sin x) (cos x) = x   for every x in the abstract range [inrange]
+     H_sk    : the wrapped scikit-learn transformer's inverse undoes its transform, cell-wise
+     H_mul1l / H_mul1r : 1 is a two-sided unit of the multiplication (x ** 1 = x, x ** 0 = 1)
+   Hypotheses on the pipeline: wf (PolynomialFeatures.powers_ well-formed, split branches
+   pure), no AnglePreprocessor with unwrap_inverse=True, declared input width, every angle
+   feature in range where its pre-processor sits, the episode at least min_samples long. *)
+From Coq Require Import List ZArith NArith Bool Arith Lia.
+From PK Require Import PyList ListFacts Episodes EpisodesFacts Stage StageEqns StageSpec StageFacts
+  EpisodeSem NonInterf ZInst RoundtripSpec RoundtripList RoundtripDelay RoundtripLeaf Roundtrip RoundtripModel.
+Import ListNotations.
+Close Scope Z_scope.
+Open Scope nat_scope.
+
+(* ---------- key lemmas on the delay lifting function *)
+Theorem C01_undelay_delay : forall (T : Type) (w n : nat) (M : list (list T)),
+  wid w M -> n + 1 <= length M -> undelay n (delay n M) = M.
+Proof. intros T w n M. exact (@undelay_delay T w n M). Qed.
+Print Assumptions C01_undelay_delay.
+
+Theorem C01_undelay_ep_delay_ep : forall (T : Type) (d : dims) (dx du : nat) (E : list (list T)),
+  wid (fst d + snd d) E -> Nat.max dx du + 1 <= length E ->
+  undelay_ep d dx du (delay_ep d dx du E) = skipn (Nat.max dx du - Nat.min dx du) E.
+Proof. intros T d dx du E. exact (@undelay_ep_delay_ep T d dx du E). Qed.
+Print Assumptions C01_undelay_ep_delay_ep.
+
+(* transform commutes with dropping leading samples *)
+Theorem C01_tf_ep_skipn : forall (T : Type) (O : ops T) (s : stage T) (d : dims) (k : nat) (E : list (list T)),
+  samples_in s 1 + k <= length E -> tf_ep O s d (skipn k E) = skipn k (tf_ep O s d E).
+Proof. intros T O s. exact (tf_ep_skipn O s). Qed.
+Print Assumptions C01_tf_ep_skipn.
+
+(* ---------- MAIN, on the per-episode specifications, for EVERY stage tree *)
+Theorem C01_roundtrip_spec :
+  forall (T : Type) (O : ops T) (inrange : T -> Prop),
+  (forall x, inrange x -> op_atan2 O (op_sin O x) (op_cos O x) = x) ->
+  (forall id c x, op_sk_inv O id c (op_sk_fwd O id c x) = x) ->
+  (forall x, op_mul O (op_t1 O) x = x) ->
+  (forall x, op_mul O x (op_t1 O) = x) ->
+  forall (s : stage T) (d : dims) (E : list (list T)),
+  wf s d = true -> no_unwrap s = true -> wid (fst d + snd d) E ->
+  angles_ok O inrange s d E -> samples_in s 1 <= length E ->
+  itf_ep O s d (tf_ep O s d E) = skipn (lag s) E.
+Proof. intros T O inrange Ha Hs Hl Hr s. exact (@roundtrip_spec T O inrange Ha Hs Hl Hr s). Qed.
+Print Assumptions C01_roundtrip_spec.
+
+Theorem C01_roundtrip_spec_chain :
+  forall (T : Type) (O : ops T) (inrange : T -> Prop),
+  (forall x, inrange x -> op_atan2 O (op_sin O x) (op_cos O x) = x) ->
+  (forall id c x, op_sk_inv O id c (op_sk_fwd O id c x) = x) ->
+  (forall x, op_mul O (op_t1 O) x = x) ->
+  (forall x, op_mul O x (op_t1 O) = x) ->
+  forall (c : chain T) (d : dims) (E : list (list T)),
+  cwf c d = true -> cno_unwrap c = true -> wid (fst d + snd d) E ->
+  cangles_ok O inrange c d E -> csamples_in c 1 <= length E ->
+  citf_ep O c d (ctf_ep O c d E) = skipn (clag c) E.
+Proof. intros T O inrange Ha Hs Hl Hr c. exact (@roundtrip_spec_chain T O inrange Ha Hs Hl Hr c). Qed.
+Print Assumptions C01_roundtrip_spec_chain.
+
+(* the lag is strictly below min_samples: at least one sample always comes back *)
+Theorem C01_lag_lt_min_samples : forall (T : Type) (s : stage T), lag s + 1 <= min_samples s.
+Proof. intros T s. exact (lag_lt_samples s). Qed.
+Print Assumptions C01_lag_lt_min_samples.
+
+(* nothing is lost when every delay has dx = du and the branches of every split need the
+   same number of samples *)
+Theorem C01_lag_balanced : forall (T : Type) (s : stage T), balanced s = true -> lag s = 0.
+Proof. intros T s. exact (lag_balanced s). Qed.
+Print Assumptions C01_lag_balanced.
+
+(* ---------- ALSO: the leading lifted-state columns are the original state *)
+Theorem C01_state_prefix_spec :
+  forall (T : Type) (O : ops T),
+  (forall x, op_mul O (op_t1 O) x = x) ->
+  (forall x, op_mul O x (op_t1 O) = x) ->
+  forall (s : stage T) (d : dims) (E : list (list T)),
+  wf s d = true -> no_preproc s = true -> wid (fst d + snd d) E -> samples_in s 1 <= length E ->
+  map (firstn (fst d)) (tf_ep O s d E) = map (firstn (fst d)) (skipn (samples_in s 1 - 1) E).
+Proof. intros T O Hl Hr s. exact (@state_prefix_spec T O Hl Hr s). Qed.
+Print Assumptions C01_state_prefix_spec.
+
+(* ---------- the model's inverse per episode is the specification *)
+Theorem C01_inverse_false : forall (T : Type) (O : ops T) (s : stage T) (d : dims) (X : dmat T),
+  no_unwrap s = true -> rows (inverse O s false d X) = itf_ep O s d (rows X).
+Proof. intros T O s. exact (inverse_false O s). Qed.
+Print Assumptions C01_inverse_false.
+
+Theorem C01_inverse_true : forall (T : Type) (O : ops T) (s : stage T) (d : dims) (X : dmat T),
+  no_unwrap s = true -> forall i, rows_of i (inverse O s true d X) = itf_ep O s d (rows_of i X).
+Proof. intros T O s. exact (inverse_true O s). Qed.
+Print Assumptions C01_inverse_true.
+
+(* ---------- MAIN lifted to the model's transform / inverse *)
+Theorem C01_roundtrip_false :
+  forall (T : Type) (O : ops T) (inrange : T -> Prop),
+  (forall x, inrange x -> op_atan2 O (op_sin O x) (op_cos O x) = x) ->
+  (forall id c x, op_sk_inv O id c (op_sk_fwd O id c x) = x) ->
+  (forall x, op_mul O (op_t1 O) x = x) ->
+  (forall x, op_mul O x (op_t1 O) = x) ->
+  forall (s : stage T) (d : dims) (X : dmat T),
+  wf s d = true -> no_unwrap s = true -> dwid (fst d + snd d) X ->
+  angles_ok O inrange s d (rows X) -> min_samples s <= length X ->
+  rows (inverse O s false d (transform O s false d X)) = skipn (lag s) (rows X).
+Proof. intros T O inrange Ha Hs Hl Hr s d X. exact (@roundtrip_false T O inrange Ha Hs Hl Hr s d X). Qed.
+Print Assumptions C01_roundtrip_false.
+
+Theorem C01_roundtrip_true :
+  forall (T : Type) (O : ops T) (inrange : T -> Prop),
+  (forall x, inrange x -> op_atan2 O (op_sin O x) (op_cos O x) = x) ->
+  (forall id c x, op_sk_inv O id c (op_sk_fwd O id c x) = x) ->
+  (forall x, op_mul O (op_t1 O) x = x) ->
+  (forall x, op_mul O x (op_t1 O) = x) ->
+  forall (s : stage T) (d : dims) (X : dmat T),
+  wf s d = true -> no_unwrap s = true -> dwid (fst d + snd d) X ->
+  (forall i, In i (labels X) -> angles_ok O inrange s d (rows_of i X)) ->
+  valid (min_samples s) X ->
+  forall i, rows_of i (inverse O s true d (transform O s true d X)) = skipn (lag s) (rows_of i X).
+Proof. intros T O inrange Ha Hs Hl Hr s d X. exact (@roundtrip_true T O inrange Ha Hs Hl Hr s d X). Qed.
+Print Assumptions C01_roundtrip_true.
+
+Theorem C01_roundtrip_labels : forall (T : Type) (O : ops T) (s : stage T) (d : dims) (X : dmat T),
+  no_unwrap s = true -> valid (min_samples s) X ->
+  forall i, In i (labels (inverse O s true d (transform O s true d X))) <-> In i (labels X).
+Proof. intros T O s d X. exact (@roundtrip_labels T O s d X). Qed.
+Print Assumptions C01_roundtrip_labels.
+
+Theorem C01_state_prefix_true :
+  forall (T : Type) (O : ops T),
+  (forall x, op_mul O (op_t1 O) x = x) ->
+  (forall x, op_mul O x (op_t1 O) = x) ->
+  forall (s : stage T) (d : dims) (X : dmat T),
+  wf s d = true -> no_preproc s = true -> dwid (fst d + snd d) X -> valid (min_samples s) X ->
+  forall i, In i (labels X) ->
+  map (firstn (fst d)) (rows_of i (transform O s true d X))
+  = map (firstn (fst d)) (skipn (min_samples s - 1) (rows_of i X)).
+Proof. intros T O Hl Hr s d X. exact (@state_prefix_true T O Hl Hr s d X). Qed.
+Print Assumptions C01_state_prefix_true.
+
+Theorem C01_state_prefix_false :
+  forall (T : Type) (O : ops T),
+  (forall x, op_mul O (op_t1 O) x = x) ->
+  (forall x, op_mul O x (op_t1 O) = x) ->
+  forall (s : stage T) (d : dims) (X : dmat T),
+  wf s d = true -> no_preproc s = true -> dwid (fst d + snd d) X -> min_samples s <= length X ->
+  map (firstn (fst d)) (rows (transform O s false d X))
+  = map (firstn (fst d)) (skipn (min_samples s - 1) (rows X)).
+Proof. intros T O Hl Hr s d X. exact (@state_prefix_false T O Hl Hr s d X). Qed.
+Print Assumptions C01_state_prefix_false.
+
+(* ---------- non-vacuity 1: the hypotheses on the cell operations are satisfiable.
+   The integer stand-ins of ZInst.v satisfy all four, with EVERY integer in range. *)
+Lemma zops_atan : forall x : Z, True -> op_atan2 zops (op_sin zops x) (op_cos zops x) = x.
+Proof.
+  intros x _. cbn [op_atan2 op_sin op_cos zops]. unfold zatan2, zcos.
+  replace (2 * x + 1 - 1)%Z with (x * 2)%Z by lia. apply Z.div_mul. lia.
+Qed.
+Lemma zops_sk : forall id c (x : Z), op_sk_inv zops id c (op_sk_fwd zops id c x) = x.
+Proof.
+  intros id c x. cbn [op_sk_inv op_sk_fwd zops]. unfold zsk_inv, zsk_fwd, zsk_sign.
+  destruct (Nat.even (id + c)); lia.
+Qed.
+Lemma zops_mul1l : forall x : Z, op_mul zops (op_t1 zops) x = x.
+Proof. intros x. cbn [op_mul op_t1 zops]. lia. Qed.
+Lemma zops_mul1r : forall x : Z, op_mul zops x (op_t1 zops) = x.
+Proof. intros x. cbn [op_mul op_t1 zops]. lia. Qed.
+
+Lemma angles_ok_trivial : forall (T : Type) (O : ops T) (s : stage T) d E, angles_ok O (fun _ => True) s d E.
+Proof.
+  intros T O. apply (stage_mut (fun s => forall d E, angles_ok O (fun _ => True) s d E)
+                               (fun c => forall d E, cangles_ok O (fun _ => True) c d E)).
+  - intros l d E. rewrite angles_ok_leaf. destruct l; cbn [leaf_angles_ok]; auto.
+  - intros xs IHx us IHu d E. rewrite angles_ok_split. split; [apply IHx|apply IHu].
+  - intros c IHc d E. rewrite angles_ok_pipe. apply IHc.
+  - intros d E. exact I.
+  - intros s IHs c IHc d E. rewrite cangles_ok_cons. split; [apply IHs|apply IHc].
+Qed.
+
+Theorem C01_roundtrip_Z : forall (s : zstage) (d : dims) (X : dmat Z),
+  wf s d = true -> no_unwrap s = true -> dwid (fst d + snd d) X -> min_samples s <= length X ->
+  rows (zinverse s false d (ztransform s false d X)) = skipn (lag s) (rows X).
+Proof.
+  intros s d X Hwf Hnu Hw Hl. unfold zinverse, ztransform.
+  apply (@roundtrip_false Z zops (fun _ => True) zops_atan zops_sk zops_mul1l zops_mul1r); try assumption.
+  apply angles_ok_trivial.
+Qed.
+Print Assumptions C01_roundtrip_Z.
+
+(* ---------- non-vacuity 2: evaluated.  polynomial(2) (3 inputs, 7 monomials), then a delay
+   with dx = 1 <> du = 2, then a SplitPipeline whose branches hold delays (2,5) and (3,1),
+   then the integer scaler and the angle pre-processor (unwrap_inverse = False) on two
+   columns.  min_samples = 8; the round trip loses the first lag = 5 samples. *)
+Definition c01_powers : list (list nat) := [[0;1;0];[2;0;0];[1;0;0];[1;1;0];[0;0;1];[1;0;1];[0;0;2]].
+Definition c01_stage : zstage :=
+  Pipe (CCons (Leaf (LPoly Z c01_powers))
+       (CCons (Leaf (LDelay Z 1 2))
+       (CCons (Split (CCons (Leaf (LDelay Z 2 5)) (CNil Z)) (CCons (Leaf (LDelay Z 3 1)) (CNil Z)))
+       (CCons (Leaf (LSk Z 4))
+       (CCons (Leaf (LAngle Z [0; 3] false)) (CNil Z)))))).
+Definition c01_X (lab : nat -> N) : dmat Z :=
+  map (fun k => (lab k, [Z.of_nat (k + 1); (Z.of_nat k * Z.of_nat k - 7)%Z; (5 - 3 * Z.of_nat k)%Z])) (seq 0 12).
+Definition c01_Xf : dmat Z := c01_X (fun _ => 0%N).
+
+Example C01_example :
+  wf c01_stage (2, 1) = true /\ no_unwrap c01_stage = true /\ min_samples c01_stage = 8
+  /\ lag c01_stage = 5 /\ sdims c01_stage (2, 1) = (26, 18)
+  /\ rows (zinverse c01_stage false (2, 1) (ztransform c01_stage false (2, 1) c01_Xf))
+     = [[6;18;-10]; [7;29;-13]; [8;42;-16]; [9;57;-19]; [10;74;-22]; [11;93;-25]; [12;114;-28]]%Z
+  /\ rows (zinverse c01_stage false (2, 1) (ztransform c01_stage false (2, 1) c01_Xf))
+     = skipn (lag c01_stage) (rows c01_Xf)
+  /\ itf_ep zops c01_stage (2, 1) (tf_ep zops c01_stage (2, 1) (rows c01_Xf))
+     = skipn (lag c01_stage) (rows c01_Xf).
+Proof. vm_compute. repeat split; reflexivity. Qed.
+
+(* two interleaved episodes (labels 3 and 8, 12 samples each): each comes back on its own *)
+Definition c01_Xt : dmat Z :=
+  flat_map (fun k => [(3%N, [Z.of_nat (k + 1); (Z.of_nat k * Z.of_nat k - 7)%Z; (5 - 3 * Z.of_nat k)%Z]);
+                      (8%N, [(2 - Z.of_nat k)%Z; Z.of_nat (3 * k); (Z.of_nat k * Z.of_nat k)%Z])]) (seq 0 12).
+Example C01_example_episodes :
+  rows_of 3%N (zinverse c01_stage true (2, 1) (ztransform c01_stage true (2, 1) c01_Xt))
+  = skipn (lag c01_stage) (rows_of 3%N c01_Xt)
+  /\ rows_of 8%N (zinverse c01_stage true (2, 1) (ztransform c01_stage true (2, 1) c01_Xt))
+  = skipn (lag c01_stage) (rows_of 8%N c01_Xt)
+  /\ length (rows_of 8%N (zinverse c01_stage true (2, 1) (ztransform c01_stage true (2, 1) c01_Xt))) = 7.
+Proof. vm_compute. repeat split; reflexivity. Qed.
+
+(* state prefix, evaluated (no pre-processors): delay(1,2), a split with one delay per
+   branch, constant, bilinear *)
+Definition c01_stage2 : zstage :=
+  Pipe (CCons (Leaf (LDelay Z 1 2))
+       (CCons (Split (CCons (Leaf (LDelay Z 1 1)) (CNil Z)) (CCons (Leaf (LDelay Z 0 1)) (CNil Z)))
+       (CCons (Leaf (LConst Z))
+       (CCons (Leaf (LBilinear Z)) (CNil Z))))).
+Example C01_example_prefix :
+  wf c01_stage2 (2, 1) = true /\ no_preproc c01_stage2 = true /\ min_samples c01_stage2 = 4
+  /\ map (firstn 2) (rows (ztransform c01_stage2 false (2, 1) c01_Xf))
+     = map (firstn 2) (skipn 3 (rows c01_Xf)).
+Proof. vm_compute. repeat split; reflexivity. Qed.
+
+(* the lag of a split is NOT zero merely because every delay has dx = du: the branch with
+   the shorter history loses what the longer one needs (hence [balanced]) *)
+Example C01_example_unbalanced :
+  let s : zstage := Split (CCons (Leaf (LDelay Z 1 1)) (CNil Z)) (CNil Z) in
+  lag s = 1 /\ rows (zinverse s false (2, 1) (ztransform s false (2, 1) c01_Xf)) = skipn 1 (rows c01_Xf).
+Proof. vm_compute. split; reflexivity. Qed.
